@@ -135,6 +135,7 @@ func runHTTPScenario(sc HScenario) hResult {
 	}()
 	var created atomic.Int32
 	var inflightWg sync.WaitGroup
+	var inflight atomic.Int32
 	var occMu sync.Mutex
 	occupied := map[int]bool{}
 	var busyNow, envClash atomic.Bool
@@ -326,6 +327,10 @@ func runHTTPScenario(sc HScenario) hResult {
 			t0 := time.Now()
 			runner.Stop()
 			rec.add("TR:%d", time.Since(t0).Milliseconds())
+			// a request that is still in flight some time after Stop() returned was not waited for (the pause covers
+			// the moment between the server's last byte and the client noticing the end of the response)
+			time.Sleep(20 * time.Millisecond)
+			rec.add("SF:%d", inflight.Load())
 		case op.Kind == "cancel":
 			if stopIssued.Swap(true) {
 				return
@@ -352,8 +357,10 @@ func runHTTPScenario(sc HScenario) hResult {
 			}
 			started := make(chan struct{})
 			inflightWg.Add(1)
+			inflight.Add(1)
 			go func() {
 				defer inflightWg.Done()
+				defer inflight.Add(-1)
 				t0 := time.Now()
 				// make sure the request is really in flight before the next operation: dial first
 				conn, err := net.DialTimeout("tcp", addrs[c.Addr], time.Second)
@@ -589,6 +596,18 @@ func genHScenario(r interface {
 }
 
 var hCorpus = []HScenario{
+	// a Stop() that arrives while a reload is draining the old server for a request still in flight: Stop() returns only
+	// after that request has finished
+	{Configs: []HConfig{{"ok", 0, 900, 1000, []HRoute{{"alpha", "/"}}}, {"ok", 0, 900, 1000, []HRoute{{"beta", "/"}}}},
+		Ops: []HOp{{Kind: "req:400"}, {Kind: "reload", Async: true}, {Kind: "stop", AtMs: 60}}},
+	{Configs: []HConfig{{"ok", 0, 900, 1000, []HRoute{{"alpha", "/"}}}, {"ok", 1, 900, 1000, []HRoute{{"alpha", "/"}}}},
+		Ops: []HOp{{Kind: "req:300"}, {Kind: "reload", Async: true}, {Kind: "stop", AtMs: 40}}},
+	// two overlapping Reload() calls, the configuration source moving on between them: the second waits for the first and
+	// then fetches and applies the newest configuration
+	{Configs: []HConfig{{"ok", 0, 100, 1000, []HRoute{{"alpha", "/"}}}, {"ok", 0, 100, 1000, []HRoute{{"beta", "/"}}}, {"ok", 0, 100, 1000, []HRoute{{"gamma", "/"}}}},
+		Ops: []HOp{{Kind: "reload", Async: true}, {Kind: "reload", Async: true, AtMs: 15}}},
+	{Configs: []HConfig{{"ok", 0, 100, 1000, []HRoute{{"alpha", "/"}}}, {"ok", 0, 100, 1200, []HRoute{{"alpha", "/"}}}, {"ok", 0, 100, 1200, []HRoute{{"alpha", "/"}, {"beta", "/b"}}}},
+		Ops: []HOp{{Kind: "reload", Async: true}, {Kind: "reload", Async: true, AtMs: 30}, {Kind: "reload", Async: true, AtMs: 5}}},
 	// a reload that changes nothing but the drain timeout, then a stop with a request in flight that lasts between the
 	// old and the new value: the drain of the stop honours the configuration in force
 	{Configs: []HConfig{{"ok", 0, 100, 1000, []HRoute{{"alpha", "/"}}}, {"ok", 0, 900, 1000, []HRoute{{"alpha", "/"}}}},
